@@ -405,3 +405,8 @@ Print bad.
     if "bad = 0%nat" not in out.replace("\n", " "):
         chk.diverge("vm_compute-vs-extraction", "sample of %d option lists" % len(items), out[-300:], "", "extracted OCaml apo_create/ato_create disagree with vm_compute")
     return len(items)
+
+
+def corpus_lines(prop_id):
+    from . import pure
+    return [l for l in pure.corpus_cases(prop_id) if l.startswith("antsmp ")]
